@@ -121,7 +121,7 @@ macro_rules! harnesses {
 }
 
 /// largest single write the sink accepts
-pub const MAXW: usize = 8;
+pub const MAXW: usize = 10;
 
 /// fixed-size sink implementing io::Write without heap allocation
 pub struct Sink<const N: usize> {
